@@ -412,6 +412,23 @@ func cli(c *run.Ctx, cs Case, w *pipe.Workload, truth []pipe.LineTruth) {
 	if mode == "lineno" {
 		args = append(args, "-l")
 	}
+	// filter -n K: "print the first NUM lines seen" - with one reader and one worker these are the first K matches
+	limit := 0
+	if mode != "color" && r.Intn(3) == 0 {
+		nm := 0
+		for _, t := range truth {
+			if t.Class == 'M' {
+				nm++
+			}
+		}
+		limit = []int{1, 2, nm / 2, nm - 1, nm, nm + 1, nm + 7}[r.Intn(7)]
+		if limit > 0 {
+			args = append(args, []string{"-n", "--num"}[r.Intn(2)], strconv.Itoa(limit))
+			c.Count("cli_runs_with_line_limit", 1)
+		} else {
+			limit = 0
+		}
+	}
 	if ordered {
 		args = append(args, "--readers", "1", "--workers", "1")
 	} else {
@@ -502,6 +519,29 @@ func cli(c *run.Ctx, cs Case, w *pipe.Workload, truth []pipe.LineTruth) {
 	}
 	c.Count("cli_runs", 1)
 	c.Count("cli_lines_compared", int64(len(want)))
+	if limit > 0 && !ordered {
+		// any K of the matched lines, each at most as often as it was matched
+		if len(got) != min(limit, len(want)) {
+			c.Violation(fp("line-limit"), fmt.Sprintf("-n %d with %d matched lines printed %d lines %s", limit, len(want), len(got), ctxs), cs)
+			return
+		}
+		wm := map[string]int{}
+		for _, l := range want {
+			wm[l]++
+		}
+		for _, l := range got {
+			wm[l]--
+			if wm[l] < 0 {
+				c.Violation(fp("line-limit"), fmt.Sprintf("-n %d: output line %s is printed more often than it was matched (or was never matched) %s", limit, run.Q(l), ctxs), cs)
+				return
+			}
+		}
+		c.Nontrivial("cli-limit", mode, strconv.Itoa(cs.Index))
+		return
+	}
+	if limit > 0 && limit < len(want) {
+		want = want[:limit]
+	}
 	if ordered {
 		if len(got) != len(want) {
 			c.Violation(fp("line-count"), fmt.Sprintf("%d output lines, expected %d %s", len(got), len(want), ctxs), cs)
